@@ -145,6 +145,10 @@ package spynode
 //@        && handlersstorage.Hdr(node.blocks, node.blocks.height) == header
 //@   assert proof_only_for_deliverable at call AddMerkleProof : [C03] arg1 == TxHashOf(tx) && (inUnconfirmed || (!inMemPool && Relevant(tx)))
 //@   assert skipped_are_irrelevant_or_seen at call TxRepository.Remove : [C03] !inUnconfirmed && !inMemPool && !Relevant(tx)
+// only a transaction of the block leaves the list of tracked unconfirmed transactions that is
+// handed back to FinalizeUnconfirmed (anything else that dropped out would be delivered as new
+// again on its next announcement)
+//@   assert only_block_txs_leave_the_tracked_list at call removeHash : [C03 C11] arg0 == TxHashOf(tx)
 //@   assert untracked_means_not_in_unconfirmed_set at call IsReady loop 0 : [C03 C11] !inUnconfirmed ==> forall(k, 0, len(unconfirmed), unconfirmed[k] != TxHashOf(tx))
 //@   assert stored_before_new_notification at call HandleTx loop 5 : [C11 C03] lastarg(SaveTxState, 2) == arg2
 //@   assert stored_before_update at call HandleTxUpdate loop 6 : [C11] lastarg(SaveTxState, 2) == txState && arg2.State == txState.State
@@ -184,7 +188,7 @@ package spynode
 //@     && handlersstorage.InvU(n.txs) && !held(n.txs.unconfirmedLock) && !held(n.txs.blockLock)
 
 //@ func (*Node).processUnconfirmedTx
-//@   serves C03 C05 C07 C11
+//@   serves C03 C05 C07 C11 C12
 //@   opt nomonitor = 1
 //@   opt partial = 1
 //@   opt abstract = AddTransaction TxTracker.Remove FetchTxState SaveTxState fetchSpentOutputs
@@ -234,7 +238,7 @@ package spynode
 // and deliveries as ProcessBlock; a transaction without a stored record is delivered with a new
 // record carrying its proof, one with a stored record is delivered as stored.
 //@ func (*Node).provideBlock
-//@   serves C04
+//@   serves C04 C03
 //@   opt nomonitor = 1
 //@   opt partial = 1
 //@   opt abstract = SaveTxState FetchTxState fetchSpentOutputs
@@ -258,7 +262,7 @@ package spynode
 //@     && internalStorage.InvU(n.txs) && state.InvTx(n.memPool) && !held(n.memPool.mutex) && !held(n.txs.unconfirmedLock)
 
 //@ func (*Node).checkTxDelays
-//@   serves C07
+//@   serves C07 C11 C05
 //@   opt nomonitor = 1
 //@   opt partial = 1
 //@   opt abstract = FetchTxState SaveTxState restart isStopping
